@@ -82,3 +82,129 @@ theorem int_F1_lorch (q r a : ℝ) (ha : a ≠ 0) (hm : r - a ≠ 0) (hp : r + a
   rw [integral_eq_sub_of_hasDerivAt hderiv]
   · simp; field_simp; ring
   · exact (by fun_prop : Continuous fun x : ℝ => x * (sin (a * x) / a) * sin (x * r)).intervalIntegrable _ _
+
+/-! ### sinc forms: valid for every r, the points r = ±π/Qmax included -/
+
+/-- sin t / t, continued by 1 at t = 0 -/
+noncomputable def sincR (t : ℝ) : ℝ := if t ≠ 0 then sin t / t else 1
+
+@[simp] theorem sincR_zero : sincR 0 = 1 := by simp [sincR]
+theorem sincR_of_ne {t : ℝ} (h : t ≠ 0) : sincR t = sin t / t := by simp [sincR, h]
+
+/-- ∫₀^q cos(Q m) dQ = q·sinc(q m), for every m (m = 0 included) -/
+theorem int_cos_mul (q m : ℝ) : ∫ Q in (0:ℝ)..q, cos (Q * m) = q * sincR (q * m) := by
+  by_cases hm : m = 0
+  · subst hm; simp
+  by_cases hq : q = 0
+  · subst hq; simp
+  have hderiv : ∀ x ∈ Set.uIcc 0 q, HasDerivAt (fun Q => sin (Q * m) / m) (cos (x * m)) x := by
+    intro x _
+    have h1 : HasDerivAt (fun Q : ℝ => Q * m) m x := by simpa using (hasDerivAt_id x).mul_const m
+    have h2 := h1.sin.div_const m
+    refine h2.congr_deriv ?_
+    field_simp
+  rw [integral_eq_sub_of_hasDerivAt hderiv]
+  · rw [sincR_of_ne (mul_ne_zero hq hm)]; simp; field_simp
+  · exact (by fun_prop : Continuous fun x : ℝ => cos (x * m)).intervalIntegrable _ _
+
+/-- ∫₀^q Q cos(Q m) dQ = q²·(sinc(q m) − sinc(q m/2)²/2), for every m (m = 0 included) -/
+theorem int_mul_cos_mul (q m : ℝ) :
+    ∫ Q in (0:ℝ)..q, Q * cos (Q * m) = q * q * (sincR (q * m) - 1 / 2 * (sincR (1 / 2 * (q * m)) * sincR (1 / 2 * (q * m)))) := by
+  by_cases hm : m = 0
+  · subst hm; simp; ring
+  by_cases hq : q = 0
+  · subst hq; simp
+  have hderiv : ∀ x ∈ Set.uIcc 0 q, HasDerivAt (fun Q => cos (Q * m) / m ^ 2 + Q * sin (Q * m) / m) (x * cos (x * m)) x := by
+    intro x _
+    have h1 : HasDerivAt (fun Q : ℝ => Q * m) m x := by simpa using (hasDerivAt_id x).mul_const m
+    have h2 := (h1.cos.div_const (m ^ 2)).add (((hasDerivAt_id x).mul h1.sin).div_const m)
+    refine h2.congr_deriv ?_
+    simp only [id]
+    field_simp
+    ring
+  rw [integral_eq_sub_of_hasDerivAt hderiv]
+  · have hv : q * m ≠ 0 := mul_ne_zero hq hm
+    have hv2 : 1 / 2 * (q * m) ≠ 0 := by positivity
+    rw [sincR_of_ne hv, sincR_of_ne hv2]
+    have hs : sin (1 / 2 * (q * m)) * sin (1 / 2 * (q * m)) = 1 / 2 - cos (q * m) / 2 := by
+      have := Real.sin_sq_eq_half_sub (1 / 2 * (q * m))
+      rw [show 2 * (1 / 2 * (q * m)) = q * m by ring, sq] at this
+      exact this
+    simp only [zero_mul, cos_zero, sin_zero, mul_zero, zero_div, add_zero]
+    have e : sin (1 / 2 * (q * m)) / (1 / 2 * (q * m)) * (sin (1 / 2 * (q * m)) / (1 / 2 * (q * m)))
+        = (sin (1 / 2 * (q * m)) * sin (1 / 2 * (q * m))) / ((1 / 2 * (q * m)) * (1 / 2 * (q * m))) := by
+      field_simp
+    rw [e, hs]
+    field_simp
+    ring
+  · exact (by fun_prop : Continuous fun x : ℝ => x * cos (x * m)).intervalIntegrable _ _
+
+theorem sin_mul_sin_eq (a r x : ℝ) : sin (a * x) * sin (x * r) = (cos (x * (r - a)) - cos (x * (r + a))) / 2 := by
+  have e1 : x * (r - a) = x * r - a * x := by ring
+  have e2 : x * (r + a) = x * r + a * x := by ring
+  rw [e1, e2, cos_sub, cos_add]; ring
+
+/-- Lorch-damped F2 for every r (the points r = ±a included): ∫₀^q (sin(aQ)/a) sin(Q r) dQ -/
+theorem int_F2_lorch_sinc (q r a : ℝ) (ha : a ≠ 0) :
+    ∫ Q in (0:ℝ)..q, (sin (a * Q) / a) * sin (Q * r)
+      = q * (sincR (q * (r - a)) - sincR (q * (r + a))) / (2 * a) := by
+  have h : ∀ Q : ℝ, (sin (a * Q) / a) * sin (Q * r) = 1 / (2 * a) * (cos (Q * (r - a)) - cos (Q * (r + a))) := by
+    intro Q
+    rw [div_mul_eq_mul_div, sin_mul_sin_eq]; field_simp
+  simp_rw [h]
+  rw [intervalIntegral.integral_const_mul, intervalIntegral.integral_sub, int_cos_mul, int_cos_mul]
+  · field_simp
+  · exact (by fun_prop : Continuous fun Q : ℝ => cos (Q * (r - a))).intervalIntegrable _ _
+  · exact (by fun_prop : Continuous fun Q : ℝ => cos (Q * (r + a))).intervalIntegrable _ _
+
+/-- Lorch-damped F1 for every r: ∫₀^q Q (sin(aQ)/a) sin(Q r) dQ -/
+theorem int_F1_lorch_sinc (q r a : ℝ) (ha : a ≠ 0) :
+    ∫ Q in (0:ℝ)..q, Q * (sin (a * Q) / a) * sin (Q * r)
+      = (q * q * (sincR (q * (r - a)) - 1 / 2 * (sincR (1 / 2 * (q * (r - a))) * sincR (1 / 2 * (q * (r - a)))))
+          - q * q * (sincR (q * (r + a)) - 1 / 2 * (sincR (1 / 2 * (q * (r + a))) * sincR (1 / 2 * (q * (r + a)))))) / (2 * a) := by
+  have h : ∀ Q : ℝ, Q * (sin (a * Q) / a) * sin (Q * r)
+      = 1 / (2 * a) * (Q * cos (Q * (r - a)) - Q * cos (Q * (r + a))) := by
+    intro Q
+    rw [mul_assoc, div_mul_eq_mul_div, sin_mul_sin_eq]; field_simp
+  simp_rw [h]
+  rw [intervalIntegral.integral_const_mul, intervalIntegral.integral_sub, int_mul_cos_mul, int_mul_cos_mul]
+  · field_simp
+  · exact (by fun_prop : Continuous fun Q : ℝ => Q * cos (Q * (r - a))).intervalIntegrable _ _
+  · exact (by fun_prop : Continuous fun Q : ℝ => Q * cos (Q * (r + a))).intervalIntegrable _ _
+
+/-- for m ≠ 0 the sinc forms are the quotients of the original StoG -/
+theorem sinc_quot1 (q m : ℝ) (hm : m ≠ 0) : q * sincR (q * m) = sin (q * m) / m := by
+  by_cases hq : q = 0
+  · subst hq; simp
+  · rw [sincR_of_ne (mul_ne_zero hq hm)]; field_simp
+
+theorem sinc_quot2 (q m : ℝ) (hm : m ≠ 0) :
+    q * q * (sincR (q * m) - 1 / 2 * (sincR (1 / 2 * (q * m)) * sincR (1 / 2 * (q * m))))
+      = (q * m * sin (q * m) + cos (q * m) - 1) / (m * m) := by
+  by_cases hq : q = 0
+  · subst hq; simp
+  · have hv : q * m ≠ 0 := mul_ne_zero hq hm
+    have hv2 : 1 / 2 * (q * m) ≠ 0 := by positivity
+    rw [sincR_of_ne hv, sincR_of_ne hv2]
+    have hs : sin (1 / 2 * (q * m)) * sin (1 / 2 * (q * m)) = 1 / 2 - cos (q * m) / 2 := by
+      have := Real.sin_sq_eq_half_sub (1 / 2 * (q * m))
+      rw [show 2 * (1 / 2 * (q * m)) = q * m by ring, sq] at this
+      exact this
+    have e : sin (1 / 2 * (q * m)) / (1 / 2 * (q * m)) * (sin (1 / 2 * (q * m)) / (1 / 2 * (q * m)))
+        = (sin (1 / 2 * (q * m)) * sin (1 / 2 * (q * m))) / ((1 / 2 * (q * m)) * (1 / 2 * (q * m))) := by
+      field_simp
+    rw [e, hs]
+    field_simp
+    ring
+
+theorem sincR_neg (t : ℝ) : sincR (-t) = sincR t := by
+  by_cases h : t = 0
+  · subst h; simp
+  · rw [sincR_of_ne h, sincR_of_ne (neg_ne_zero.mpr h), sin_neg, neg_div_neg_eq]
+
+/-- `numpy.sinc(t/π)` is sin(t)/t continued by 1 -/
+theorem Num.sinc_div_pi (t : ℝ) : Num.sinc (t / Real.pi) = sincR t := by
+  have hpi : (Real.pi : ℝ) ≠ 0 := Real.pi_ne_zero
+  simp only [Num.sinc, Transc.pi_real, Transc.sin_real, Cmp.ne_real, Nat.cast_zero, Nat.cast_one, sincR]
+  rw [mul_div_cancel₀ t hpi]
+  by_cases h : t = 0 <;> simp [h]
